@@ -118,7 +118,16 @@ def run_history(job):
             elif k == "save":
                 e["exc"] = ""
                 try:
-                    doc.save(path)
+                    with warnings.catch_warnings(record=True) as wlist:
+                        warnings.simplefilter("always")
+                        doc.save(path)
+                    tname = doc.sheets[si].tables[ti].name
+                    if any("Not modifying pivot table '%s'" % tname in str(w.message) for w in wlist):
+                        # the library says so itself: pivot tables are not written back (what was set on one is not saved) -
+                        # the same documented exception as in C02; the history says nothing about C16
+                        trace["meta"]["pivot"] = True
+                        trace["ev"] = []
+                        break
                     e["post"] = observe(doc, si, ti)
                     reo = Document(path)
                     e["re"] = observe(reo, si, ti)
